@@ -158,6 +158,11 @@ def prec_map(wb):
     return prec
 
 
+def reads(prec, n, a):
+    """does n (transitively) read a?"""
+    return n in prec and (a in prec[n] or any(reads(prec, q, a) for q in prec[n]))
+
+
 def needs_broken(prec, n, broken, ovr):
     if n in ovr or n not in prec:
         return False
@@ -269,6 +274,57 @@ def job(arg):
                     f'validate_calcs([{act["n"]}]) raised {type(exc).__name__}: {exc} '
                     f'[{name}/{src}/{mode}]', case))
             out['side_calls'] = out.get('side_calls', 0) + 1
+        if mode == 'plain' and dynamic and rnd.random() < (0.15 if len(g.states) < 400 else 0.04) and \
+                [b for b in broken if b not in ovr and W.addr(b) in model.m.cell_map]:
+            # side experiment on a copy of the model: validate_calcs of a cell which
+            # fails right now (the failure is collected in the report), then the cell
+            # heals, an input changes and every cell is evaluated: no stale value
+            import contextlib
+            import io
+            b = rnd.choice(sorted(b for b in broken if b not in ovr
+                                  and W.addr(b) in model.m.cell_map))
+            saved = set(model.plugin.BROKEN)
+            try:
+                clone = make_model()
+                for a in hist:
+                    clone.do(a)
+                try:
+                    with contextlib.redirect_stdout(io.StringIO()):
+                        clone.m.validate_calcs(output_addrs=[W.addr(b)], verify_tree=False)
+                except Exception as exc:          # noqa
+                    out['violations'].append((
+                        f'validate_calcs([{b}]) raised {type(exc).__name__}: {exc} '
+                        f'[{name}/{src}/{mode}]', case))
+                clone.plugin.BROKEN.discard(b)
+                still = broken - {b}
+                a_in = sorted(settable or wb['inputs'])[0]
+                new_val = 7 if inputs.get(a_in) != 7 else 8
+                # (an overwritten cell keeps its formula: changing one of its
+                # precedents would bring the formula back -- Repair guard of the model)
+                if W.addr(a_in) in clone.m.cell_map and not any(reads(prec, c, a_in) for c in ovr):
+                    clone.m.set_value(W.addr(a_in), new_val)
+                    inputs2 = dict(inputs, **{a_in: new_val})
+                else:
+                    inputs2 = dict(inputs)
+                truth2 = true_values(wb, inputs2, ovr, memo)
+                n_all = W.nodes(wb)
+                for node in n_all['formulas'] + n_all['ranges'] + n_all['aliases']:
+                    if needs_broken(prec, node, still, ovr):
+                        continue
+                    st2, got2 = clone.do(dict(op='evaluate', n=node))
+                    if st2 == 'raise' or not xl.same_value(got2, truth2[node]):
+                        shown = f'raised {type(got2).__name__}' if st2 == 'raise' else repr(got2)
+                        out['violations'].append((
+                            f'validate_calcs([{b}]) while {b} fails, then {b} heals and '
+                            f'set_value({a_in}, {new_val}): evaluate({node}) {shown}; a fresh '
+                            f'model gives {truth2[node]!r} [{name}/{src}/{mode}]',
+                            dict(case, side=['validate_calcs', b, 'heal', b,
+                                             'set_value', a_in, new_val, 'evaluate', node])))
+                        break
+                out['side_calls'] = out.get('side_calls', 0) + 1
+            finally:
+                model.plugin.BROKEN.clear()
+                model.plugin.BROKEN.update(saved)
         if mode == 'iterative' and act['op'] == 'evaluate' and status == 'raise' and \
                 src == 'NoData' and rnd.random() < 0.25:
             clone = make_model()
@@ -309,7 +365,9 @@ def job(arg):
                 f'[{name}/{src}/{mode}]', case))
         if mode == 'plain' and variant not in (3, 4) and not drift:
             proj = model.project()
-            diffs = engine.state_matches(st_to, proj)
+            # which cells of an abandoned evaluation are "never known" rather than
+            # "reset" depends on the path they were built on: not compared
+            diffs = engine.state_matches(st_to, proj, one_none=True)
             if act['op'] == 'evaluate' and (status == 'raise') != bool(act.get('raised')):
                 diffs.append(('raised', act.get('raised'), status))
             if diffs:
@@ -375,6 +433,7 @@ def run(tier, seed):
             ('nested', 'NoData', ['B1', 'B2'], [], True, 'plain', P, ['A1'], 0, seed),
             ('nested', 'Stored', ['B2'], ['B2'], False, 'plain', P, ['A1'], 0, seed),
             ('chain', 'NoData', ['B1'], [], True, 'iterative', P, ['A1'], 0, seed),
+            ('chain', 'NoData', ['B1'], [], True, 'plain', P, ['A1'], 0, seed),
             ('cse', 'NoData', ['E1'], ['E1'], False, 'plain', P, ['A1'], 0, seed),
             ('range', 'NoData', ['B1'], ['B1'], False, 'iterative', P, ['A1'], 0, seed, 2),
             ('nested', 'NoData', ['B1'], ['B1'], False, 'iterative', P, ['A1'], 0, seed, 1),
